@@ -183,7 +183,13 @@ def r19_3(ctx):
             keytxt = U(st.node.slice)
             ctx.check("stored under the name returned by the splitter", "split_resolved_shortcode" in keytxt and keytxt.endswith("[0]"), "behaviors[name]", keytxt[:80], w)
             val = st.extra
-            compound = any(pol is False and "__COMPOUND_PART1__" in U(g) for g, pol in bp.guards)
+            marker_guard = [(g, pol) for g, pol in bp.guards if "__COMPOUND_PART1__" in U(g)]
+            ctx.check("single / compound decided by the marker test", len(marker_guard) == 1, "one test for the part marker on the path", str([U(g)[:40] for g, _ in marker_guard]), w, nontrivial=False)
+            g0, pol0 = marker_guard[0] if marker_guard else (None, None)
+            has_marker = None
+            if isinstance(g0, ast.Compare):
+                has_marker = pol0 if isinstance(g0.ops[0], ast.In) else (not pol0)
+            compound = bool(has_marker)
             if compound:
                 ok = isinstance(val, ast.List) and len(val.elts) == 2 and all("split_compounds" in U(e) for e in val.elts) and U(val.elts[0]).endswith("[0]") and U(val.elts[1]).endswith("[1]")
                 ctx.check("compound: both parts stored in order", ok, "[part1, part2] from split_compounds(body)", U(val)[:100], w)
